@@ -23,6 +23,18 @@ CHECKS = {
    text="Fresh (counter above every integer id) decided as an inductive invariant for all three classes with the counter and every explicit id as unbounded solver integers (0, negative, non-increasing and colliding ids are in the model space), followed by one automatic addition that must collide with nothing; provenance base cases (constructors, from_* converters, in-memory parsers, generators, copy, pickle, relabelling, dual, <<, subhypergraph copy); explicit existing id refused with a warning and no change; update_uid_counter contract over all integers.",
    note="As C01; ids that travel as strings (standard dict, text parsers) are enumerated over 0..3; float(idx) assumed exact (|id| < 2**53).",
    technique="bounded symbolic execution (z3) of mutators + update_uid_counter with symbolic counter and ids; inductive invariant"),
+ "C06": dict(level=MC, ref="5/C06",
+   text="Views and stat objects are created and held, one mutator with symbolic arguments runs (Hypergraph and DiHypergraph alphabets, every small shape), then the held objects are compared with definitions computed from the post-state tables (degree/size/order, sums, directed in/out/total, head/tail); stat arguments, filterby in every mode with a symbolic threshold, filterby_attr with symbolic values and `missing`, neighbors with symbolic s, lookup, duplicates, isolates, singletons, empty, maximal against set-theoretic definitions; output formats agree and follow view order, the latter also under real hashing with labels forked exhaustively over a window.",
+   note="As C01. Set-order effects are only visible in the windowed-label harness (C06.order); float-valued statistics are outside.",
+   technique="bounded symbolic execution (z3) of views/stats with symbolic labels, thresholds, order/degree/s parameters and attribute values"),
+ "C07": dict(level=MC, ref="5/C07",
+   text="For all three classes and every small shape with symbolic labels, counter and attribute values (nested mutables at node, edge and network level): copy(), pickle round trip and same-class constructor give equal snapshots and leave the source unchanged; no mutable container is shared (structural containers only for the constructor route, as the property states nested independence for copy()); a nested in-place edit and any one mutator with symbolic arguments on either side are invisible on the other; both sides keep assigning fresh ids (C04 assertions).",
+   note="As C01; the symbolic run pickles scount, itertools.count itself is pickled in the concrete replays.",
+   technique="bounded symbolic execution (z3): derive, edit one side symbolically, compare snapshots"),
+ "C18": dict(level=MC, ref="5/C18",
+   text="Structural mutators are discovered by concrete probing of every public callable of the three classes and the in-place library functions; then on every small shape, after freeze() and on subhypergraph() results, each discovered mutator (dedicated symbolic-argument ops plus a generic recipe call, keyword and positional) leaves the structural snapshot unchanged on every path, and whenever the identical call with identical symbolic arguments changes an equal unfrozen twin it raises the library's error; is_frozen stays True; copy() is unfrozen, equal and editable without touching the original.",
+   note="As C01; library error = XGIError or IDNotFound; a public callable without recipe is listed in the evidence.",
+   technique="bounded symbolic execution (z3) with twin runs (same symbolic arguments on frozen net and unfrozen twin)"),
 }
 NOT_APPLICABLE = {
  "C11": "disk round trips: every value that reaches a file passes through json/numpy C encoders which reject or realise a symbolic proxy, so no solver variable can cross the file boundary; in-memory halves are decided under C10/C04",
